@@ -40,12 +40,23 @@ fn subsets_of(archive: Arc<Vec<u8>>, label: &str) -> Result<(u64, u64, u64), Str
         let reader = crate::lib_drv::http_reader(&url, 0)?;
         let mut a = bitar::Archive::try_init(reader).await.map_err(|e| format!("{}: try_init: {:?}", label, e))?;
         let (mut judged, mut multi, mut reqs) = (0u64, 0u64, 0u64);
+        let mut padded = 0u64;
         for mask in 1u32..(1u32 << n) {
             let subset: Vec<usize> = (0..n).filter(|i| mask >> i & 1 == 1).collect();
             let mut index = bitar::ChunkIndex::new_empty(model.hash_len);
             for &i in &subset {
                 let d = &model.parsed.dict.descs[i];
                 index.add_chunk(bitar::HashSum::from(&d.checksum[..]), d.source_size as usize, &[0]);
+            }
+            // The index of what is left to fetch need not be derived from this archive (an
+            // archive used as a chunk source for another one): every third subset is padded
+            // with hashes the archive does not hold. The requests must not change.
+            if mask % 3 == 1 {
+                for k in 0..(n as u64 + 3) {
+                    let foreign = crate::util::b2(&[&mask.to_le_bytes()[..], &k.to_le_bytes()[..], b"foreign"].concat());
+                    index.add_chunk(bitar::HashSum::from(&foreign[..]), 10, &[1 << 40]);
+                }
+                padded += 1;
             }
             mode.store((mask % 4) as u8, std::sync::atomic::Ordering::SeqCst);
             let mark = log.len();
@@ -78,6 +89,7 @@ fn subsets_of(archive: Arc<Vec<u8>>, label: &str) -> Result<(u64, u64, u64), Str
                 multi += 1;
             }
         }
+        let _ = padded;
         Ok((judged, multi, reqs))
     })
 }
